@@ -1,5 +1,5 @@
 (* C18 — proofs about model/Resolve.v over the regenerated tables gen/TablesTyping.v. *)
-From Coq Require Import NArith ZArith List Bool String Lia ZifyBool ZifyNat ZifyN.
+From Coq Require Import NArith ZArith List Bool Lia ZifyBool ZifyNat ZifyN.
 From GV Require Import model.Resolve gen.TablesTyping.
 Import ListNotations.
 Open Scope N_scope.
@@ -179,7 +179,7 @@ Proof.
     + right. apply N.eqb_eq. exact H2.
 Qed.
 
-Definition no_set : fset := {| f_name := ""; f_sigs := [] |}.
+Definition no_set : fset := {| f_sigs := [] |}.
 Definition ex_have : list input := [{| i_ty := 4; i_lit := None |}; {| i_ty := 5; i_lit := None |}].
 Definition nonempty_b (P : params) : bool :=
   Nat.leb 1000 (List.length (tuples 2 (all_inputs P))) && Nat.leb 100 (List.length all_sets) &&
@@ -376,12 +376,12 @@ Definition ex_r : list dtype := [{| d_id := 7; d_meta := [] |}].
 Lemma union_src : on_src (fun P => match unify_cols P ex_l ex_r with Some [(_, SLeft)] => true | _ => false end) = true.
 Proof. vm_compute. reflexivity. Qed.
 Example union_hypothesis_satisfiable :
-  exists P ls rs out, src_params = Some P /\ unify_cols P ls rs = Some out /                      exists o, In o out /\ snd o = SLeft.
+  exists P ls rs out, src_params = Some P /\ unify_cols P ls rs = Some out /\
+                      exists o, In o out /\ snd o = SLeft.
 Proof.
   destruct (on_src_true _ union_src) as [P [E H]]. cbv beta in H.
   exists P. exists ex_l. exists ex_r.
-  destruct (unify_cols P ex_l ex_r) as [[|[t sd] [|y ys]]|]; try discriminate.
-  destruct sd; try discriminate.
+  destruct (unify_cols P ex_l ex_r) as [[|[t sd] [|y ys]]|]; try discriminate; destruct sd; try discriminate.
   eexists. split; [exact E|]. split; [reflexivity|]. eexists. split; [left; reflexivity|]. reflexivity.
 Qed.
 
